@@ -176,7 +176,7 @@ impl<'a, 'b> G<'a, 'b> {
 
     /// One `<--` form; declarations it needs go to `decls` (top of the template), the statement is returned.
     fn signal_assign(&mut self, decls: &mut Vec<Stmt>, in_loop: Option<(String, u64)>) -> Vec<Stmt> {
-        let form = self.t.below(9);
+        let form = self.t.below(10);
         match form {
             // scalar, both spellings
             0 | 1 => {
@@ -354,6 +354,47 @@ impl<'a, 'b> G<'a, 'b> {
                 self.assigned.push(s);
                 vec![Stmt::Assign { id, lhs, op: AssignOp::Constrain, rhs: anon, reversed: false }]
             }
+            // an anonymous component with a `<--` input nested in a `<--` input of another anonymous
+            // component whose template has two outputs (tuple destination) or none (statement form)
+            9 => {
+                let e1 = self.rhs(1);
+                let e2 = self.rhs(1);
+                let inner_id = self.ids.next();
+                let inner = Expr::Anon { id: inner_id, name: "One".into(), params: vec![], inputs: vec![e1], names: Some(vec![(AssignOp::Signal, "a".to_string())]) };
+                let outer_id = self.ids.next();
+                self.expected.push(Expected { anchor: outer_id, signal: None, access: String::new() });
+                self.expected.push(Expected { anchor: inner_id, signal: None, access: String::new() });
+                if self.t.chance(128) {
+                    self.forms.push("nested anonymous components, outer template with two outputs");
+                    let outer = Expr::Anon {
+                        id: outer_id,
+                        name: "Two".into(),
+                        params: vec![],
+                        inputs: vec![inner, e2],
+                        names: Some(vec![(AssignOp::Signal, "a".to_string()), (AssignOp::Constrain, "b".to_string())]),
+                    };
+                    let s1 = self.fresh("n");
+                    let s2 = self.fresh("n");
+                    self.decl_signal(&s1, SigKind::Intermediate, None, decls);
+                    self.decl_signal(&s2, SigKind::Intermediate, None, decls);
+                    let v1 = self.var(&s1);
+                    let v2 = self.var(&s2);
+                    let lhs = Expr::Tuple { id: self.ids.next(), elems: vec![v1, v2] };
+                    let id = self.ids.next();
+                    let mut names_set = BTreeSet::new();
+                    names_set.insert(s1.clone());
+                    names_set.insert(s2.clone());
+                    self.constraints.push(ConstraintStmt { id, mentions: vec![(s1.clone(), String::new()), (s2.clone(), String::new())], names: names_set });
+                    self.assigned.push(s1);
+                    self.assigned.push(s2);
+                    vec![Stmt::Assign { id, lhs, op: AssignOp::Constrain, rhs: outer, reversed: false }]
+                } else {
+                    self.forms.push("nested anonymous components, outer template without outputs");
+                    let _ = e2;
+                    let outer = Expr::Anon { id: outer_id, name: "Zero".into(), params: vec![], inputs: vec![inner], names: Some(vec![(AssignOp::Signal, "a".to_string())]) };
+                    vec![Stmt::ExprStmt { id: self.ids.next(), e: outer }]
+                }
+            }
             _ => {
                 let s = self.fresh("s");
                 self.decl_signal(&s, SigKind::Intermediate, None, decls);
@@ -429,7 +470,7 @@ impl<'a, 'b> G<'a, 'b> {
     }
 }
 
-const HELPERS: &str = "\ntemplate Sub(k) { signal input a; signal input b; signal output x; x <== a + b * k; }\ntemplate Sub1(k) { signal input a; signal input b; signal output x; x <== a * k + b; }\ntemplate One() { signal input a; signal output o; o <== a; }\n";
+const HELPERS: &str = "\ntemplate Sub(k) { signal input a; signal input b; signal output x; x <== a + b * k; }\ntemplate Sub1(k) { signal input a; signal input b; signal output x; x <== a * k + b; }\ntemplate One() { signal input a; signal output o; o <== a; }\ntemplate Two() { signal input a; signal input b; signal output p; signal output q; p <== a; q <== b; }\ntemplate Zero() { signal input a; a === a; }\n";
 
 struct Case {
     src: String,
